@@ -132,4 +132,15 @@ theorem vecMat_scale (d : Nat) (n : Vec) (c : Rat) (al : Mat) (j : Nat) :
   rw [sumN_eq, sumN_eq, div_eq_mul_inv, sum_mul]
   exact sum_congr rfl (fun i _ => by ring)
 
+/-! ### concrete cells for the non-vacuity examples in Props.lean -/
+
+/-- triangle (0,0),(2,0),(1,3): outward edge normals, edge midpoints, area 3 -/
+def triFaces : List Face :=
+  [⟨vecOf [0, -2], vecOf [1, 0]⟩, ⟨vecOf [3, 1], vecOf [3/2, 3/2]⟩, ⟨vecOf [-3, 1], vecOf [1/2, 3/2]⟩]
+
+def cubeFaces : List Face :=
+  [⟨vecOf [-1, 0, 0], vecOf [0, 1/2, 1/2]⟩, ⟨vecOf [1, 0, 0], vecOf [1, 1/2, 1/2]⟩,
+   ⟨vecOf [0, -1, 0], vecOf [1/2, 0, 1/2]⟩, ⟨vecOf [0, 1, 0], vecOf [1/2, 1, 1/2]⟩,
+   ⟨vecOf [0, 0, -1], vecOf [1/2, 1/2, 0]⟩, ⟨vecOf [0, 0, 1], vecOf [1/2, 1/2, 1]⟩]
+
 end PorepyVerif.C15
